@@ -1882,7 +1882,8 @@ where
         out: &mut Vec<Option<LazyValue<'de>>>,
         remain: &mut usize,
     ) -> Result<()> {
-        debug_assert!(strbuf.is_empty());
+        // the buffer still holds the parent key when that key was spelled with escapes
+        strbuf.clear();
         match self.skip_space() {
             Some(b'{') => {}
             Some(peek) => return Err(self.peek_invalid_type(peek, &"a JSON object")),
@@ -1936,7 +1937,8 @@ where
         out: &mut Vec<Option<LazyValue<'de>>>,
         remain: &mut usize,
     ) -> Result<()> {
-        debug_assert!(strbuf.is_empty());
+        // the buffer still holds the parent key when that key was spelled with escapes
+        strbuf.clear();
         match self.skip_space() {
             Some(b'{') => {}
             Some(peek) => return Err(self.peek_invalid_type(peek, &"a JSON object")),
